@@ -484,7 +484,8 @@ def rejected_then_cancel_family(thin: int = 1) -> List[dict]:
                 b = {"op": "spawn", "pool": 0, "kind": kb, "place": "inline", "gname": [0, 1], "worker": dict(w)}
                 b.update({"num": 2} if kb == "apply" else {"n": 2, "nc": 1})
                 rejected.append([b])                                                                        # duplicate name
-                rejected.append([dict(b, op="bad_spawn", bad=["func"], func_kind=0)])                      # ... and not a coroutine function
+                for fk in (0, 5):
+                    rejected.append([dict(b, op="bad_spawn", bad=["func"], func_kind=fk)])                  # ... and not a coroutine function
                 if kb != "apply":
                     rejected.append([dict(b, op="bad_spawn", bad=["nc"], nc_val=0, gname=[0, 2])])          # fresh name, num_concurrent 0
                 rejected.append([{"op": "lock", "pool": 0, "place": "inline"}, dict(b, gname=[0, 2]), {"op": "unlock", "pool": 0, "place": "inline"}])
